@@ -118,7 +118,9 @@ func urlValues(k protoreflect.Kind, forPath bool) []urlValue {
 	return out
 }
 
-var bodyVariants = []string{"absent", "empty", "empty-object", "other-fields", "protobuf-other-fields"}
+// chunked-empty*: no body bytes, sent without a Content-Length (Transfer-Encoding: chunked, terminating chunk
+// only) as streaming clients and proxies do: the declared length is unknown, the body is empty
+var bodyVariants = []string{"absent", "empty", "empty-object", "other-fields", "protobuf-other-fields", "chunked-empty", "chunked-empty-protobuf"}
 
 // c02: URL-carried fields reach the handler with the URL's value, for every verb.
 func c02(c *Ctx) {
@@ -289,7 +291,7 @@ func c02(c *Ctx) {
 						continue
 					}
 					for _, target := range []string{"go", "ts"} {
-						if target == "ts" && (ts == nil || bv == "protobuf-other-fields") {
+						if target == "ts" && (ts == nil || bv == "protobuf-other-fields" || bv == "chunked-empty-protobuf") {
 							continue
 						}
 						caseID := fmt.Sprintf("bind/%s/%s/body=%s@%s", target, pc.ID, bv, uv.Class)
@@ -344,6 +346,12 @@ func c02one(c *Ctx, target string, ch, node *lab.Child, gs, ts *srv, pc *corpus.
 	case "empty-object":
 		hdr = append(hdr, [2]string{"Content-Type", "application/json"})
 		body = []byte("{}")
+	case "chunked-empty":
+		hdr = append(hdr, [2]string{"Content-Type", "application/json"})
+		body = []byte{}
+	case "chunked-empty-protobuf":
+		hdr = append(hdr, [2]string{"Content-Type", "application/x-protobuf"})
+		body = []byte{}
 	case "other-fields":
 		hdr = append(hdr, [2]string{"Content-Type", "application/json"})
 		t, _ := enc.Message(other)
@@ -358,7 +366,11 @@ func c02one(c *Ctx, target string, ch, node *lab.Child, gs, ts *srv, pc *corpus.
 		base = ts.URL
 		child = node
 	}
-	resp, err := rawHTTP(pc.Verb, base, uri, hdr, body)
+	send := rawHTTP
+	if strings.HasPrefix(bv, "chunked-") {
+		send = rawHTTPChunkedWire
+	}
+	resp, err := send(pc.Verb, base, uri, hdr, body)
 	c.R.Eval(1)
 	if err != nil {
 		transportFailure(c, child, nil, caseID, err, map[string]any{"target": target, "uri": uri})
